@@ -21,6 +21,15 @@ CLAIMED = {
     note="Trusts the harness' valuation table (two valid values per attribute) and raysect's observer setters; attributes without a valuation are listed in the evidence, not checked.",
     technique="TLA+ generic group state machine, TLC exhaustive edges replayed per (class, attribute) pair",
     design="4.15"),
+ "C16": dict(
+    text="Instrument.tla models Spectrometer / CzernyTurnerSpectrometer / Polychromator as parameters plus lazily (or eagerly) computed settings with their "
+         "dependency table; TLC explores all setter / invalid-setter / getter interleavings to depth 3-4 (4-6 thorough), checks NoStale and the range / bin-width "
+         "inequalities on exact integer settings, and every edge is replayed on the real class and compared with an instrument constructed directly from the final "
+         "parameters and with TLC's exact min/max/bins. Calibrate.tla computes the exact per-pixel integrals of raysect's piecewise-linear spectrum for 81 "
+         "layout x source-grid cases; Spectrometer.calibrate is compared with them (rtol 1e-12).",
+    note="Czerny-Turner optics formula is opaque (mutated-vs-fresh only); exact settings use integer layouts and power-of-two min_bins; raysect Spectrum.integrate semantics trusted as the definition of the integral.",
+    technique="TLA+ lazy-settings state machine + exact rational calibration table, TLC exhaustive edges replayed into the code",
+    design="4.16"),
 }
 
 NOT_YET = {}
